@@ -480,6 +480,35 @@ func (fr *Frame) enterBlock(b *ssa.BasicBlock) *State {
 			vc.assume(r, "(>= "+st.now+" "+n+")")
 			break
 		}
+		// whatever a loop-carried variable refers to was allocated before this point
+		for _, in := range b.Instrs {
+			phi, ok := in.(*ssa.Phi)
+			if !ok {
+				break
+			}
+			v := fr.vals[phi]
+			switch phi.Type().Underlying().(type) {
+			case *types.Pointer, *types.Map, *types.Chan, *types.Slice:
+				vc.assume(r, "(< (birth "+v.L[0]+") "+st.now+")")
+			case *types.Interface:
+				vc.assume(r, "(< (birth "+v.L[1]+") "+st.now+")")
+			}
+		}
+		// the loop's own counters are the index terms its invariants are used at
+		for _, in := range b.Instrs {
+			phi, ok := in.(*ssa.Phi)
+			if !ok {
+				break
+			}
+			if bt, ok := phi.Type().Underlying().(*types.Basic); ok && bt.Info()&types.IsInteger != 0 {
+				v := fr.vals[phi]
+				if isRangeIndexPhi(phi) {
+					fr.addHintFront("(+ " + v.L[0] + " 1)")
+				} else {
+					fr.addHintFront(v.L[0])
+				}
+			}
+		}
 		fr.cur = st
 		fr.curR = r
 		fr.assumeInvariant(b)
@@ -607,6 +636,19 @@ func (fr *Frame) hintTerms() []string {
 		return fr.hints[:8]
 	}
 	return fr.hints
+}
+
+func (fr *Frame) addHintFront(t string) {
+	top := fr.top
+	if len(t) > 60 {
+		return
+	}
+	for _, h := range top.hints {
+		if h == t {
+			return
+		}
+	}
+	top.hints = append([]string{t}, top.hints...)
 }
 
 func (fr *Frame) addHint(t string) {
